@@ -1163,6 +1163,7 @@ func main() {
 		"not demanded: behaviour after 2^63 round-robin selections; at which member the round-robin cycle starts; which member random returns; winding down of the probe loop after cancellation (noted as leak)",
 	}
 	selfTest(c)
+	cleanup := stableBinary()
 
 	aggs := map[string]*agg{}
 	var order []string
@@ -1239,7 +1240,30 @@ func main() {
 	c.Extra["filler_sets"] = map[string]any{"small": "all F, all 10, all 30, ascending 10/20/30, descending, (F,10,..,10)", "full": "all 4^n rounds"}
 	c.Extra["timing"] = "interval 30 s, timeout 5 s; the group is asked 5 ms after every tick (probes running) and 29 s after it (round over)"
 	reportViolations(c, scenarioFns, viols)
+	cleanup()
 	c.Finish()
+}
+
+// stableBinary copies this executable to a private temporary file and makes
+// the shard workers start from the copy: the build cache the binary lives in
+// is pruned by concurrent ./check invocations, which would make a later
+// worker start fail in the middle of a long run.
+func stableBinary() func() {
+	src, err := os.Open(os.Args[0])
+	if err != nil {
+		return func() {}
+	}
+	defer src.Close()
+	tmp, err := os.CreateTemp("", "c19-bin-*")
+	if err != nil {
+		return func() {}
+	}
+	if _, err := io.Copy(tmp, src); err != nil || tmp.Chmod(0o755) != nil || tmp.Close() != nil {
+		os.Remove(tmp.Name())
+		return func() {}
+	}
+	os.Args[0] = tmp.Name()
+	return func() { os.Remove(tmp.Name()) }
 }
 
 func dedupInts(a []int) []int {
